@@ -102,3 +102,13 @@ contract(
     props=["C08", "C09"],
     doc="classified exactly as a key-by-key comparison of hash and metadata dictates; restricting to hashes or metadata never hides a change",
 )
+
+# traversal (each key once) and rename pairing: generator-heavy code over tries -- bounded stand-in only
+contract(
+    f"{M}:diff",
+    verify=False,
+    bounded=("bounded/index_diff.py", 400, 6000),
+    props=["C08"],
+    doc="the multiset of reported changes equals a flat key-by-key application of _diff_entry; renames pair one DELETE with one ADD "
+        "of equal truthy hash, nothing lost or duplicated, no matching pair left unpaired (bounded run-time check)",
+)
